@@ -513,6 +513,17 @@ class PostprocessAttributes(Contract):
                 lambda i: Cs.item(t).elem(i) == cf(t, i), shape))), "post")
         if not ran_rrn and names_kind == "tuple":
             ex.oblige("post.names_unchanged", z3.BoolVal(isinstance(names2, NamesV) and names2.term is ex.names_in), "post")
+        if ran_rrn and names_kind == "none":
+            # no names given and unused columns dropped: the columns must have been numbered BEFORE the pruning, so that the
+            # indeterminates that remain keep their number (C15: x0*x2**2 must not become x0*x1**2 because retain_names is off)
+            from contracts.codec import sym_names
+            from engine.polymodel import nat
+            sel = proj[1]
+            pref = st.cur.val[okey("default_varname")]
+            okn = isinstance(names2, NamesV)
+            ex.oblige("post.unnamed_columns_are_numbered_before_unused_ones_are_dropped", z3.BoolVal(False) if not okn else z3.And(
+                nlen(names2.term) == sel.Dn, ctx.forall_range(0, sel.Dn, lambda j: nat(names2.term, j) == nat(sym_names(pref, Emid.D), sel.col(j)))),
+                "post", note="kept column j carries the default name of its ORIGINAL position")
 
     def _names_ok_in(self, ctx, ex):
         from engine.polymodel import names_distinct
